@@ -10,6 +10,8 @@ import (
 	"path/filepath"
 	"strings"
 
+	"github.com/invopop/gobl"
+	"github.com/invopop/gobl/dsig"
 	"github.com/invopop/gobl/internal/cli"
 )
 
@@ -36,7 +38,7 @@ func init() {
 	pd.RequiredProbes = append(pd.RequiredProbes, "http-handler-exercised", "cobra-command-exercised")
 }
 
-var c14httpKinds = []string{"build", "build-doc-damaged", "build-wrong-ctype", "build-empty", "build-badjson", "build-wrongtypes", "build-template", "verify", "verify-damaged", "verify-nokey", "verify-badkey", "key", "root", "bulk-garbage", "bulk-damaged", "unknown-route", "build-huge-type"}
+var c14httpKinds = []string{"build", "build-doc-damaged", "build-wrong-ctype", "build-empty", "build-badjson", "build-wrongtypes", "build-template", "verify", "verify-damaged", "verify-nokey", "verify-badkey", "key", "root", "bulk-garbage", "bulk-damaged", "unknown-route", "build-huge-type", "bulk-sign-nokey", "validate-head-nulls", "lib-sign-nil"}
 var c14cobraKinds = []string{"build", "build-envelop", "build-type", "build-set", "validate", "sign", "sign-nokey", "verify", "verify-nokeyfile", "correct-credit", "correct-data", "correct-baddata", "correct-options", "replicate", "bulk", "version", "unknown-flag", "keygen-stdout"}
 
 func planC14entry(c *Ctx, run int64) *Plan {
@@ -111,12 +113,20 @@ func execC14entry(x *X) {
 		if t, err := ParseJV(data); err == nil && t.Get("doc") != nil && t.Get("doc").K == 'o' {
 			docOnly = t.Get("doc").Encode(nil)
 		}
+		if x.faultClass == "nullelem" && (op.S == "bulk-damaged" || op.S == "bulk") {
+			// the null-array-element class is a known crash; inside a bulk worker it takes the child
+			// process down every time, which teaches nothing new and costs a restart
+			x.Probe("known-crash-class-not-sent-through-bulk")
+			x.faultClass = ""
+			continue
+		}
 		where := fmt.Sprintf("%s %s on %s (damage %s at %s)", op.K, op.S, d.Name, op.S3, op.S2)
 		x.Case(fmt.Sprintf("%s|%s|%s|%s|%s", d.Name, op.K, op.S, op.S3, op.S2))
 		switch op.K {
 		case "http":
 			x.Probe("http-handler-exercised")
 			method, path, ctype := http.MethodPost, "/build", "application/json"
+			h := handler
 			var body []byte
 			js := func(v any) []byte { b, _ := json.Marshal(v); return b }
 			switch op.S {
@@ -154,6 +164,49 @@ func execC14entry(x *X) {
 				path, body = "/bulk", append(js(map[string]any{"action": "validate", "req_id": "a", "payload": map[string]any{"data": data}}), []byte("\n{\"action\":\"build\",\"payload\":{\"data\":5}}\n")...)
 			case "unknown-route":
 				path = "/nope"
+			case "bulk-sign-nokey":
+				x.faultClass = ""
+				// a server started without a key, asked to sign by a request that names none
+				h = HTTPHandler(nil)
+				path, body = "/bulk", append(js(map[string]any{"action": "sign", "req_id": "s", "payload": map[string]any{"data": docOnly}}), '\n')
+			case "validate-head-nulls":
+				x.faultClass = ""
+				// null entries in the header's own lists
+				if t, err := ParseJV(d.Env); err == nil && t.Get("head") != nil {
+					nulls := func(n int64) *JV {
+						a := &JV{K: 'a'}
+						for k := int64(0); k <= n%3; k++ {
+							a.A = append(a.A, &JV{K: 'z'})
+						}
+						return a
+					}
+					t.Get("head").Set(Pick(RNG(op.I, 2, 3), []string{"stamps", "links"}), nulls(op.J))
+					if op.J%2 == 1 {
+						t.Get("head").Set("links", nulls(op.J+1))
+					}
+					path, body = "/bulk", append(js(map[string]any{"action": "validate", "req_id": "h", "payload": map[string]any{"data": t.Encode(nil)}}), '\n')
+				}
+			case "lib-sign-nil":
+				x.faultClass = ""
+				x.guard("Envelope.Sign(nil)", where, func() {
+					env := new(gobl.Envelope)
+					if err := json.Unmarshal(d.Env, env); err != nil {
+						return
+					}
+					env.Signatures = nil
+					if err := env.Sign(nil); err == nil {
+						x.Violate("sign-nil-key-succeeds", "Envelope.Sign(nil) reported success\n  input: %s", where)
+					}
+					var k *dsig.PrivateKey
+					_ = k.Validate()
+					var pk *dsig.PublicKey
+					_ = pk.Validate()
+					if _, err := dsig.NewSignature(nil, map[string]string{"a": "b"}); err == nil {
+						x.Violate("sign-nil-key-succeeds", "dsig.NewSignature(nil, …) reported success\n  input: %s", where)
+					}
+				})
+				x.faultClass = ""
+				continue
 			}
 			x.guard("HTTP "+path, where, func() {
 				req := httptest.NewRequest(method, path, bytes.NewReader(body))
@@ -161,7 +214,7 @@ func execC14entry(x *X) {
 					req.Header.Set("Content-Type", ctype)
 				}
 				rec := httptest.NewRecorder()
-				handler.ServeHTTP(rec, req)
+				h.ServeHTTP(rec, req)
 				if rec.Code < 200 || rec.Code > 599 {
 					x.Violate("http-status:"+path, "HTTP %s %s answered with status %d\n  input: %s", method, path, rec.Code, where)
 				}
